@@ -182,6 +182,16 @@ Definition amp_res (l r : value) : res value :=
             end
   end.
 
+(* the comparison operators on an array operand: = and <> answer through Python's list comparison, < and > raise for
+   a list against a scalar - not modelled (RUnmodelled), never reported as an exception or as a value *)
+Definition is_list (v : value) : bool := match v with VList _ => true | _ => false end.
+Definition cmp_res (code : Z) (l r : value) : res value :=
+  match l, r with
+  | VErr _, _ => ROk l
+  | _, VErr _ => ROk r
+  | _, _ => if is_list l || is_list r then RUnmodelled else of_outcome (eval_cmp code l r)
+  end.
+
 (* ---------- the grammar actions ---------- *)
 Definition tok_is (s : list Z) (c : Z) : bool := list_eqb s [c].
 Definition is_nonterm (sym : Z) : bool := sym <? 0.
@@ -213,7 +223,7 @@ Definition sem_action (h : host) (fn : Z) (rhs : list Z) (vals : list sv) : res 
          | [SVval l; SVtok op; SVval r] =>
              let code := if tok_is op 60 then 0 else if tok_is op 62 then 1 else if tok_is op 61 then 2
                          else if list_eqb op [60; 61] then 3 else if list_eqb op [62; 61] then 4 else 5 in
-             no_ev (rbind (of_outcome (eval_cmp code l r)) (fun v => ROk (SVval v)))
+             no_ev (rbind (cmp_res code l r) (fun v => ROk (SVval v)))
          | _ => no_ev RExc end
   | 4 => match vals with [SVtok _; SVval v] => no_ev (rbind (of_outcome (eval_neg v)) (fun w => ROk (SVval w))) | _ => no_ev RExc end
   | 5 => no_ev (match vals with
